@@ -121,8 +121,9 @@ fn timestamp_case(c: &mut Case<'_>, unix_ms: i128, offset_min: i32, f: Timestamp
             return Err(c.fail(sig, format!("format({name}) of instant {unix_ms} ms gives {text:?}, which the parser refuses: {e}")));
         }
     }
-    // independent reader on s3s's text
-    {
+    // independent reader on s3s's text (aws_smithy_types misreads negative fractional epoch seconds - it adds the
+    // fraction to the negative whole part, "-1.999" -> -0.001 s - so it is not consulted there)
+    if !(f == TimestampFormat::EpochSeconds && unix_ms < 0 && ms != 0) {
         use aws_smithy_types::date_time::{DateTime, Format};
         let af = match f {
             TimestampFormat::DateTime => Format::DateTime,
